@@ -416,11 +416,12 @@ theorem ast_identical :
     ∀ f ∈ C14.identical, (C14.toolsAst.lookup f).isSome = true ∧ C14.toolsAst.lookup f = C14.laueAst.lookup f := by
   decide
 
-/-- C14(source identity, converse): the 10 remaining shared names have DIFFERENT normalised ASTs (so the split
-31/10 is exact), and both hash tables list exactly the shared names. -/
-theorem ast_different :
-    (∀ f ∈ C14.different, C14.toolsAst.lookup f ≠ C14.laueAst.lookup f)
-      ∧ C14.toolsAst.map (·.1) = C14.shared ∧ C14.laueAst.map (·.1) = C14.shared := by
+/-- C14(source identity, bookkeeping): both hash tables list exactly the shared names.  (Whether the other 10 definitions differ
+textually is immaterial for the property — they are covered by the convention laws of section 2 — and is not claimed: a refactor may
+legitimately move their `2π` into a helper or a constant; the hashes are CLOSURE hashes, a definition together with the private helpers
+and module-level constants it reaches, so such a move does not make two different definitions look identical.) -/
+theorem ast_tables_complete :
+    C14.toolsAst.map (·.1) = C14.shared ∧ C14.laueAst.map (·.1) = C14.shared := by
   decide
 
 /-! ## 4. Completeness -/
@@ -429,12 +430,6 @@ theorem ast_different :
 top-level function that the other lacks (`C14.onlyTools = [] = C14.onlyLaue`). -/
 theorem shared_count :
     C14.shared.length = 41 ∧ C14.shared.Nodup ∧ C14.onlyTools = [] ∧ C14.onlyLaue = [] := by
-  decide
-
-/-- C14(quantifier): private helpers outside the API (split off public functions by a refactor; the tracer inlines them into
-the traced callers, the untraced callers are compared as source) are literally the same source in the two modules. -/
-theorem helpers_ast_identical :
-    C14.helperToolsAst = C14.helperLaueAst := by
   decide
 
 /-- C14(quantifier): every shared name is AST-identical or AST-different (31 + 10 = 41, disjoint), and every shared
